@@ -93,10 +93,9 @@ class Row(tuple):
         return instance
 
     def get(self, item, default=None):
-        index = self._fields.index(item)
-        if index == -1:
+        if item not in self._fields:
             return default
-        return self[index]
+        return self[self._fields.index(item)]
 
     @cached_property
     def as_map(self) -> Tuple[Tuple[str, Any], ...]:
